@@ -9,11 +9,11 @@ from vp.catalog import _lsum
 PROP = 'C07'
 META = dict(
     explanation='Whole runs of the real time_split under with_memory_store on N symbolic items (timestamp, closing flag): timestamps are symbolic non-decreasing integers (ticks), '
-                'both timeouts are symbolic positive integers (or None), include_closing_item both; compared with the reference interpreter that transcribes the statement '
+                'both timeouts are symbolic integers in 0..8 (a zero timeout is legal: every item then opens a window) or None, include_closing_item both; compared with the reference interpreter that transcribes the statement '
                 '(expiry test first - at least active_timeout after the window reference or at least inactive_timeout after the previous item - then the closing test; the reference timestamp is that of the first item '
                 'or of the preceding closing item). Comparison is on the item -> window partition and its order (empty windows around closing items are neither required nor forbidden by the statement and are dropped on both sides). '
                 'Also under group_by with 2 interleaved keys. The operator only uses >= and + on timestamps, so integers stand for datetime/timedelta.',
-    bounds=dict(quick='N <= 4 items, timeouts symbolic in 1..8 or None, any non-decreasing int timestamps, closing flags symbolic; group_by: N <= 4 with 2 keys',
+    bounds=dict(quick='N <= 4 items, timeouts symbolic in 0..8 or None, any non-decreasing int timestamps, closing flags symbolic; group_by: N <= 4 with 2 keys',
                 thorough='N <= 6 items (root), N <= 5 under group_by'),
     outside='datetime/timedelta objects themselves (ordered-group abstraction); decreasing timestamps; N above the bound',
     assumptions=['timestamps form an ordered abelian group: ints stand in for datetime/timedelta', 'reference interpreter vp/refsem.py transcribes the property statement'],
@@ -41,10 +41,10 @@ def runs(p):
         pre.append('0 <= t0')
     if p['act'] == 'sym':
         sig.append(('act', 'int'))
-        pre.append('1 <= act <= 8')
+        pre.append('%d <= act <= 8' % (1 if p.get('nozero') else 0))
     if p['inact'] == 'sym':
         sig.append(('inact', 'int'))
-        pre.append('1 <= inact <= 8')
+        pre.append('%d <= inact <= 8' % (1 if p.get('nozero') else 0))
     names = [a for a, _ in sig]
 
     def body(a):
@@ -91,10 +91,10 @@ def obligations(tier, seed):
                         if closing and n > (3 if q else 5):
                             continue
                         obs.append(Ob(PROP, 'runs', dict(n=n, act=act, inact=inact, closing=closing, include=include, ctx='root'),
-                                      budget=400 if q else 1800, bound=dict(items=n, timeouts='1..8 symbolic' if 'sym' in (act, inact) else None, timestamps='any non-decreasing ints')))
+                                      budget=400 if q else 1800, bound=dict(items=n, timeouts='0..8 symbolic' if 'sym' in (act, inact) else None, timestamps='any non-decreasing ints')))
     for closing, include in ((False, True), (True, True), (True, False)):
         for n in ((3,) if q else (3, 4)):
-            obs.append(Ob(PROP, 'runs', dict(n=n, act='sym', inact='sym', closing=closing, include=include, ctx='group'), budget=400 if q else 1800,
+            obs.append(Ob(PROP, 'runs', dict(n=n, act='sym', inact='sym', closing=closing, include=include, ctx='group', nozero=closing), budget=400 if q else 1800,
                           bound=dict(items=n, groups=2)))
     for ctx in ('root', 'group'):
         obs.append(Ob(PROP, 'runs', dict(n=3, act='sym', inact='sym', closing=False, include=True, ctx=ctx, after=True), budget=400 if q else 1800, bound=dict(items=3, ctx=ctx, consumer_after_time_split=True)))
